@@ -60,7 +60,7 @@ func Scale(quick, thorough int) int {
 	n := quick * envInt("VERIF_QUICK_X", 5)
 	if Thorough() {
 		// likewise the thorough budgets are a base; the thorough tier runs a multiple (minutes per property on 16 shards)
-		n = thorough * envInt("VERIF_THOROUGH_X", 8)
+		n = thorough * envInt("VERIF_THOROUGH_X", 4)
 	}
 	if m := envInt("VERIF_CASES_PCT", 100); m != 100 {
 		n = n * m / 100
